@@ -1,6 +1,7 @@
 package props
 
 import (
+	"bytes"
 	"fmt"
 	"os"
 	"path/filepath"
@@ -19,7 +20,7 @@ import (
 
 // C19: unreadable rule lists degrade results to a subset, never crash or lie.
 
-var c19FaultKinds = []string{"storage-close", "closed-descriptor", "directory-descriptor", "pipe-descriptor"}
+var c19FaultKinds = []string{"storage-close", "closed-descriptor", "directory-descriptor", "pipe-descriptor", "closed-descriptor-of-another-file"}
 
 type c19Target struct {
 	kind    string // "dns" or "network"
@@ -87,6 +88,17 @@ func c19Inject(t *c19Target, kind string, dir string) error {
 		old := t.list.File
 		t.list.File = f
 		_ = old.Close()
+	case "closed-descriptor-of-another-file":
+		// The closed handle carries the name of a file with other rules at the
+		// same offsets; nothing of it may ever be served.
+		f, err := os.Open(filepath.Join(dir, "decoy.txt"))
+		if err != nil {
+			return err
+		}
+		_ = f.Close()
+		old := t.list.File
+		t.list.File = f
+		_ = old.Close()
 	case "pipe-descriptor":
 		// Seek fails with ESPIPE, the descriptor itself is open.
 		r, w, err := os.Pipe()
@@ -108,6 +120,41 @@ func c19Inject(t *c19Target, kind string, dir string) error {
 	}
 
 	return nil
+}
+
+// c19Decoy returns content of the same length and line structure in which
+// every line is another rule that matches whatever the original matched: hosts
+// lines keep their names with another address, all other lines of three bytes
+// or more become the match-everything pattern "***...".
+func c19Decoy(content []byte) []byte {
+	out := make([]byte, 0, len(content))
+	for len(content) > 0 {
+		line := content
+		rest := []byte(nil)
+		if i := bytes.IndexByte(content, '\n'); i >= 0 {
+			line, rest = content[:i+1], content[i+1:]
+		}
+		body := bytes.TrimRight(line, "\r\n")
+		eol := line[len(body):]
+		switch {
+		case len(body) > 8 && body[0] >= '0' && body[0] <= '9' && bytes.ContainsAny(body, " \t"):
+			d := append([]byte(nil), body...)
+			if d[0] == '1' {
+				d[0] = '2'
+			} else {
+				d[0] = '1'
+			}
+			out = append(out, d...)
+		case len(body) >= 3:
+			out = append(out, bytes.Repeat([]byte("*"), len(body))...)
+		default:
+			out = append(out, bytes.Repeat([]byte(" "), len(body))...)
+		}
+		out = append(out, eol...)
+		content = rest
+	}
+
+	return out
 }
 
 type c19Witness struct {
@@ -293,6 +340,11 @@ func c19Run(c *core.Ctx, idx int) {
 		}
 	}
 
+	if b, rerr := os.ReadFile(file); rerr != nil || os.WriteFile(filepath.Join(dir, "decoy.txt"), c19Decoy(b), 0o644) != nil {
+		c.Inconclusive("cannot write the decoy file")
+
+		return
+	}
 	for _, fault := range c19FaultKinds {
 		for k := 0; k <= n; k++ {
 			t, berr := c19Build(kind, file)
@@ -407,8 +459,8 @@ func init() {
 	core.Register(&core.Prop{
 		ID:    "C19",
 		Level: "fault_enumeration",
-		Rule: "per case one file-backed list (DNS: rules + hosts lines over colliding names; network: a pool mixing all index paths) and one query history of 10..30 (thorough 10..60) queries drawn with repeats from 8 distinct requests; in half of the cases the list is padded beyond the 4 KiB read block so that a rule straddles a block boundary exactly where its prefix is a valid broader rule matching a request of the history; for EVERY fault point k in 0..n and every fault kind in {RuleStorage.Close, file handle replaced by an already closed descriptor, by a directory descriptor (Seek succeeds, reads fail with EISDIR), by the read end of a closed pipe (Seek fails with ESPIPE)} the engine is rebuilt, queries before k must equal a String-backed twin, queries from k on must not panic, must return a subset of the fault-free result whose members individually match, and must still return every rule materialised before k (tracked from storage.insert hook events, cross-checked with GetCacheSize); " +
-			"non-trivial = every (list, history) pair, each contributing 4*(n+1) fault placements; distinct by list and history length",
+		Rule: "per case one file-backed list (DNS: rules + hosts lines over colliding names; network: a pool mixing all index paths) and one query history of 10..30 (thorough 10..60) queries drawn with repeats from 8 distinct requests; in half of the cases the list is padded beyond the 4 KiB read block so that a rule straddles a block boundary exactly where its prefix is a valid broader rule matching a request of the history; for EVERY fault point k in 0..n and every fault kind in {RuleStorage.Close, file handle replaced by an already closed descriptor, by a directory descriptor (Seek succeeds, reads fail with EISDIR), by the read end of a closed pipe (Seek fails with ESPIPE), by an already closed descriptor of ANOTHER file that holds different matching rules at the same offsets} the engine is rebuilt, queries before k must equal a String-backed twin, queries from k on must not panic, must return a subset of the fault-free result whose members individually match, and must still return every rule materialised before k (tracked from storage.insert hook events, cross-checked with GetCacheSize); " +
+			"non-trivial = every (list, history) pair, each contributing 5*(n+1) fault placements; distinct by list and history length",
 		Assumptions: []string{
 			"the fault-free oracle is a String-backed twin engine over the same bytes",
 			"with only a subset of rules available the selected basic rule may legitimately differ from the fault-free one; only membership and match are required",
